@@ -50,7 +50,16 @@ def main():
             # our checks
             if subprocess.run("git -C /repo status --porcelain", shell=True, capture_output=True, text=True).stdout.strip():
                 print("/repo not clean"); return
-            sh("git -C /repo apply %s" % patch, ROOT)
+            rc_apply, out_apply = sh("git -C /repo apply %s" % patch, ROOT)
+            if rc_apply != 0:
+                # /repo has moved on (a later fix: commit touched the same lines): needs a hand-adapted patch
+                alt = patch.replace(".diff", ".adapted.diff")
+                if os.path.exists(alt):
+                    rc_apply, out_apply = sh("git -C /repo apply %s" % alt, ROOT)
+                    meta["adapted"] = "the original patch no longer applies to /repo after a later fix: commit; the same change was re-made by hand (patch.adapted.diff)"
+                    patch_used = alt
+                if rc_apply != 0:
+                    print(name, "patch does not apply to /repo:", out_apply[:200]); continue
             caught = {}
             try:
                 for chk in [pid] + ALSO.get(pid, []):
@@ -65,6 +74,8 @@ def main():
             d = os.path.join(ROOT, "seeded", name)
             os.makedirs(d, exist_ok=True)
             shutil.copy(patch, d + "/patch.diff")
+            if meta.get("adapted"):
+                shutil.copy(patch.replace(".diff", ".adapted.diff"), d + "/patch.adapted.diff")
             shutil.copy(demo, d + "/demo.rs")
             notes = "%s/seed/notes%d.md" % (wt, n)
             meta["needs"] = open(notes).read() if os.path.exists(notes) else ""
